@@ -1,12 +1,15 @@
 import GbVerif.Model.Cpu
 import GbVerif.Spec.SM83
 import GbVerif.Proofs.Enum
+import GbVerif.Proofs.Sm83Main
+import GbVerif.Proofs.InterpLen
 /-!
 C06 — interpreter control flow, instruction length and timing match the SM83; block terminators; undefined opcodes.
 Table theorems are re-checked by the kernel against the regenerated decoder (`Gen.DecoderOps`) on every run.
 -/
 namespace GbVerif.C06
-open GbVerif.Enum
+open GbVerif.Enum GbVerif.Interp
+open GbVerif.C05 (WF abs stepModel statusOf ByteBus memOf)
 
 /-- every defined unprefixed opcode has the SM83 encoded length; the eleven undefined ones decode as `Invalid` -/
 theorem decoder_len_matches_sm83 : ∀ b0, b0 < 2^8 → b0 ≠ 0xCB →
@@ -49,5 +52,172 @@ theorem cb_clocks_pos : ∀ b1, b1 < 2^8 → 4 ≤ Gen.cbOpClocks b1 ∧ Gen.cbO
   intro b1 hb
   have := forall_lt_of_allRange (fun b1 => decide (4 ≤ Gen.cbOpClocks b1 ∧ Gen.cbOpClocks b1 % 4 = 0)) 8 (by decide +kernel) b1 hb
   exact of_decide_eq_true this
+
+
+/-! ### whole-instruction statements (from the refinement theorem of `Proofs/Sm83Main.lean`) -/
+
+/-- **Program counter, stack and timing.**  For every defined instruction, whenever the interpreter step succeeds the
+SM83 instruction succeeds from the abstracted state with the interpreter's new PC (`abs r'`.pc = `r'.ip`: PC + length,
+or the architecturally defined jump / call / return / restart target), new SP, the same memory (so the same bytes at
+the same stack addresses), the status for HALT / STOP / DI / EI / RETI, and the SM83 machine-cycle count — taken and
+not-taken cases alike, since `SM83.step` charges them separately. -/
+theorem control_refines {β : Type} (B : BusOps β) (hB : ByteBus B) (b0 b1 b2 : Nat) (h0 : b0 < 256) (h1 : b1 < 256)
+    (h2 : b2 < 256) (hu : ¬ SM83.isUndefined b0 = true) (r : Regs) (hr : WF r) (m : β) (r' : Regs) (m' : β) (st : Nat)
+    (hm : stepModel B b0 b1 b2 r m = .ok (r', m', st)) :
+    ∃ cyc out, SM83.step (memOf B) (abs r) m b0 b1 b2 = .ok (abs r', m', cyc, out) ∧ st = statusOf out ∧ WF r' ∧
+      r'.cycles = r.cycles + cyc :=
+  C05.step_refines_model B (memOf B) rfl rfl hB b0 b1 b2 h0 h1 h2 hu r hr m r' m' st hm
+
+/-- the interpreter charges exactly the SM83 machine cycles of the executed path -/
+theorem cycles_match {β : Type} (B : BusOps β) (hB : ByteBus B) (b0 b1 b2 : Nat) (h0 : b0 < 256) (h1 : b1 < 256)
+    (h2 : b2 < 256) (hu : ¬ SM83.isUndefined b0 = true) (r : Regs) (hr : WF r) (m : β) (r' : Regs) (m' : β) (st : Nat)
+    (hm : stepModel B b0 b1 b2 r m = .ok (r', m', st)) :
+    ∃ c m₁ cyc out, SM83.step (memOf B) (abs r) m b0 b1 b2 = .ok (c, m₁, cyc, out) ∧ r'.cycles = r.cycles + cyc := by
+  obtain ⟨cyc, out, hs, _, _, hc⟩ := control_refines B hB b0 b1 b2 h0 h1 h2 hu r hr m r' m' st hm
+  exact ⟨_, _, cyc, out, hs, hc⟩
+
+/-- taken / not-taken example: JR NZ,+5 from 0x0150 costs 3 cycles and lands on 0x0157 when Z is clear, 2 cycles and
+0x0152 when Z is set -/
+example : (stepModel C05.toyBus 0x20 5 0 { af := 0x0000, sp := 0xFFFE, ip := 0x0150 } (fun _ => 0)).map (fun x => (x.1.ip, x.1.cycles))
+    = .ok (0x0157, 3) := by rfl
+example : (stepModel C05.toyBus 0x20 5 0 { af := 0x0080, sp := 0xFFFE, ip := 0x0150 } (fun _ => 0)).map (fun x => (x.1.ip, x.1.cycles))
+    = .ok (0x0152, 2) := by rfl
+
+/-- `cycles_match` on a concrete state: CALL NZ,0x1234 with Z clear from PC = 0xC000, SP = 0xD000 -/
+example : ∃ c m₁ cyc out, SM83.step (memOf C05.toyBus) (abs { af := 0x0000, sp := 0xD000, ip := 0xC000, cycles := 4 }) (fun _ => 0) 0xC4 0x34 0x12
+      = .ok (c, m₁, cyc, out) ∧ 10 = 4 + cyc :=
+  cycles_match C05.toyBus C05.toyBus_bytes 0xC4 0x34 0x12 (by decide) (by decide) (by decide) (by decide)
+    { af := 0x0000, sp := 0xD000, ip := 0xC000, cycles := 4 } (by unfold WF; decide) (fun _ => 0)
+    { af := 0x0000, sp := 0xCFFE, ip := 0x1234, cycles := 10 }
+    (fun x => if x = 0xCFFE then 0x03 else if x = 0xCFFF then 0xC0 else 0) 0 rfl
+
+theorem terminates_cb : SM83.terminates 0xCB = false := by decide
+theorem length_cb : SM83.length 0xCB = 2 := by decide
+
+/-- every instruction that does not terminate a block advances the program counter by the SM83 encoded length,
+modulo 65536 -/
+theorem interp_len {β : Type} (B : BusOps β) (b0 b1 b2 : Nat) (h0 : b0 < 256) (h1 : b1 < 256)
+    (hu : ¬ SM83.isUndefined b0 = true) (hnt : SM83.terminates b0 = false) (r : Regs) (m : β) (r' : Regs) (m' : β) (st : Nat)
+    (hm : stepModel B b0 b1 b2 r m = .ok (r', m', st)) : r'.ip = (r.ip + SM83.length b0) % 65536 := by
+  have key : ∀ op len clk, Gen.decode b0 b1 b2 = (op, len, clk) → Gen.isBlockEnd op = false → len = SM83.length b0 →
+      r'.ip = (r.ip + SM83.length b0) % 65536 := by
+    intro op len clk hd hbe hlen
+    rw [C05.stepModel_eq B b0 b1 b2 r m op len clk hd] at hm
+    cases hr : runOp B op r m len with
+    | error e => rw [hr] at hm; cases hm
+    | ok x =>
+      obtain ⟨r0, m0, st0⟩ := x
+      rw [hr] at hm
+      simp only [Except.map, C05.finish, Except.ok.injEq, Prod.mk.injEq] at hm
+      obtain ⟨rfl, _, _⟩ := hm
+      have := runOp_ip B op r m len r0 m0 st0 hbe hr
+      simp only [this, hlen, GbVerif.Sm83Bits.and_ffff]
+  by_cases hcb : b0 = 0xCB
+  · subst hcb
+    exact key (Gen.cbOp b1) (Gen.cbOpLen b1) (Gen.cbOpClocks b1) rfl (cb_never_block_end b1 h1)
+      (by rw [cb_len b1 h1, length_cb])
+  · have hd : Gen.decode b0 b1 b2 = (Gen.decOp b0 b1 b2, Gen.opLen b0, Gen.opClocks b0) := by
+      simp only [Gen.decode, Gen.prefixByteOps, hcb, if_false]
+    have hl := decoder_len_matches_sm83 b0 h0 hcb
+    have hu' : SM83.isUndefined b0 = false := by simpa using hu
+    rw [hu'] at hl
+    exact key _ _ _ hd (by rw [block_end_exact b0 h0 b1 b2 hcb hu]; exact hnt) (by simpa using hl)
+
+/-- `interp_len` on a concrete state: LD (HL),n at PC = 0xFFFF wraps to 0x0001 -/
+example : (0x0001 : Nat) = (0xFFFF + SM83.length 0x36) % 65536 :=
+  interp_len C05.toyBus 0x36 0x77 0 (by decide) (by decide) (by decide) (by decide)
+    { hl := 0xC000, ip := 0xFFFF } (fun _ => 0) { hl := 0xC000, ip := 0x0001, cycles := 3 }
+    (fun x => if x = 0xC000 then 0x77 else 0) 0 rfl
+
+/-! ### undefined opcodes -/
+
+def isInvalid : Op → Bool
+  | .Invalid _ => true
+  | _ => false
+
+/-- the decoder yields `Op::Invalid` exactly for the eleven undefined first bytes, whatever the operand bytes -/
+theorem invalid_exact : ∀ b0, b0 < 2^8 → ∀ b1 b2, b0 ≠ 0xCB → isInvalid (Gen.decOp b0 b1 b2) = SM83.isUndefined b0 := by
+  apply forall_lt_of_ptree (fun b0 => ∀ b1 b2, b0 ≠ 0xCB → isInvalid (Gen.decOp b0 b1 b2) = SM83.isUndefined b0) 8
+  simp only [PTree]
+  repeat' constructor
+  all_goals (intro b1 b2 h1; first | rfl | (exfalso; exact h1 rfl))
+
+/-- no CB-prefixed encoding is invalid -/
+theorem cb_never_invalid : ∀ b1, b1 < 2^8 → isInvalid (Gen.cbOp b1) = false := by
+  intro b1 hb
+  have := forall_lt_of_allRange (fun b1 => isInvalid (Gen.cbOp b1) == false) 8 (by decide +kernel) b1 hb
+  simpa using this
+
+/-- an `Op::Invalid` is never executed as something else: `run_op` panics (and only `Invalid` makes it panic without
+a bus access: every other arm either succeeds or forwards a bus panic) -/
+theorem invalid_panics {β : Type} (B : BusOps β) (code : Nat) (r : Regs) (m : β) (len : Nat) :
+    ∃ s, runOp B (.Invalid code) r m len = .error (.explicit s) := ⟨_, rfl⟩
+
+/-- the eleven undefined opcodes make the interpreter step panic explicitly, for every operand and state -/
+theorem undefined_invalid {β : Type} (B : BusOps β) (b0 b1 b2 : Nat) (h0 : b0 < 256) (hu : SM83.isUndefined b0 = true)
+    (r : Regs) (m : β) : ∃ s, stepModel B b0 b1 b2 r m = .error (.explicit s) := by
+  have hcb : b0 ≠ 0xCB := by intro h; subst h; exact absurd hu (by decide)
+  have hi := invalid_exact b0 h0 b1 b2 hcb
+  rw [hu] at hi
+  have hd : Gen.decode b0 b1 b2 = (Gen.decOp b0 b1 b2, Gen.opLen b0, Gen.opClocks b0) := by
+    simp only [Gen.decode, Gen.prefixByteOps, hcb, if_false]
+  rw [C05.stepModel_eq B b0 b1 b2 r m _ _ _ hd]
+  cases hop : Gen.decOp b0 b1 b2 <;> rw [hop] at hi <;> first | (cases hi; done) | exact ⟨_, rfl⟩
+
+example : ∃ s, stepModel C05.toyBus 0xDD 1 2 { ip := 0x100 } (fun _ => 0) = .error (.explicit s) :=
+  undefined_invalid C05.toyBus 0xDD 1 2 (by decide) (by decide) _ _
+
+/-! ### stack bytes -/
+
+/-- `push`: the high byte goes to SP−1, then the low byte to SP−2, SP := SP−2, all modulo 65536 -/
+theorem push_bytes {β : Type} (B : BusOps β) (r : Regs) (v : Nat) (m : β) (hsp : r.sp < 65536) :
+    push B v r m =
+      (B.write m ((r.sp + 65535) % 65536) (v / 256 % 256)).bind fun m1 =>
+        (B.write m1 ((r.sp + 65534) % 65536) (v % 256)).bind fun m2 =>
+          .ok ({ r with sp := (r.sp + 65534) % 65536 }, m2) := by
+  have e1 : u16 (u16 r.sp + 65535) = (r.sp + 65535) % 65536 := by simp only [u16]; omega
+  have e2 : u16 (u16 (u16 r.sp + 65535) + 65535) = (r.sp + 65534) % 65536 := by simp only [u16]; omega
+  rw [C05.push_gen, e2, e1, GbVerif.Sm83Bits.shr8, GbVerif.Sm83Bits.and_ff]
+
+/-- `pop`: the low byte comes from SP, the high byte from SP+1, SP := SP+2, all modulo 65536 -/
+theorem pop_bytes {β : Type} (B : BusOps β) (r : Regs) (m : β) (hsp : r.sp < 65536) :
+    pop B r m =
+      (B.read m r.sp).bind fun lo => (B.read m ((r.sp + 1) % 65536)).bind fun hi =>
+        .ok ((hi <<< 8) ||| lo, { r with sp := (r.sp + 2) % 65536 }) := by
+  have e0 : u16 r.sp = r.sp := Nat.mod_eq_of_lt hsp
+  have e1 : u16 (r.sp + 1) = (r.sp + 1) % 65536 := rfl
+  have e2 : u16 ((r.sp + 1) % 65536 + 1) = (r.sp + 2) % 65536 := by simp only [u16]; omega
+  rw [C05.pop_gen, e0, e1, e2]
+
+/-- stack bytes of every stack instruction, in one statement -/
+theorem stack_bytes {β : Type} (B : BusOps β) (r : Regs) (v : Nat) (m : β) (hsp : r.sp < 65536) :
+    (push B v r m =
+      (B.write m ((r.sp + 65535) % 65536) (v / 256 % 256)).bind fun m1 =>
+        (B.write m1 ((r.sp + 65534) % 65536) (v % 256)).bind fun m2 =>
+          .ok ({ r with sp := (r.sp + 65534) % 65536 }, m2)) ∧
+    (pop B r m =
+      (B.read m r.sp).bind fun lo => (B.read m ((r.sp + 1) % 65536)).bind fun hi =>
+        .ok ((hi <<< 8) ||| lo, { r with sp := (r.sp + 2) % 65536 })) :=
+  ⟨push_bytes B r v m hsp, pop_bytes B r m hsp⟩
+
+/-- wrap-around: pushing 0xBEEF with SP = 0x0001 writes 0xBE at 0x0000 and 0xEF at 0xFFFF, SP := 0xFFFF -/
+example : (push C05.toyBus 0xBEEF { sp := 0x0001 } (fun _ => 0)).map (fun x => (x.1.sp, x.2 0x0000, x.2 0xFFFF)) = .ok (0xFFFF, 0xBE, 0xEF) := by
+  rw [(stack_bytes C05.toyBus { sp := 0x0001 } 0xBEEF (fun _ => 0) (by decide)).1]; rfl
+
+/-- PUSH rr pushes the register pair; CALL pushes the address of the next instruction (PC+3), RST pushes PC+1;
+POP / RET / RETI pop -/
+theorem push_uses_stack {β : Type} (B : BusOps β) (reg : Reg16) (r : Regs) (m : β) (len : Nat) :
+    runOp B (.Push reg) r m len = (push B (getReg16 r reg) r m).bind fun x => .ok (advance x.1 len, x.2, STATUS_NORMAL) := rfl
+theorem call_pushes_next {β : Type} (B : BusOps β) (addr : Nat) (r : Regs) (m : β) (len : Nat) :
+    runOp B (.Call .Always addr) r m len =
+      (push B (u16 (u32 (r.ip + 3))) { r with ip := u32 (r.ip + 3) } m).bind fun x =>
+        .ok ({ x.1 with ip := addr, cycles := x.1.cycles + 3 }, x.2, STATUS_NORMAL) := rfl
+theorem rst_pushes_next {β : Type} (B : BusOps β) (v : Nat) (r : Regs) (m : β) (len : Nat) :
+    runOp B (.ResetVector v) r m len =
+      (push B (u16 (u32 (r.ip + 1))) { r with ip := u32 (r.ip + 1) } m).bind fun x =>
+        .ok ({ x.1 with ip := v }, x.2, STATUS_NORMAL) := rfl
+theorem ret_pops {β : Type} (B : BusOps β) (r : Regs) (m : β) (len : Nat) :
+    runOp B (.Return .Always) r m len =
+      (pop B { r with ip := r.ip + 1 } m).bind fun x => .ok ({ x.2 with ip := x.1, cycles := x.2.cycles + 3 }, m, STATUS_NORMAL) := rfl
 
 end GbVerif.C06
